@@ -302,10 +302,10 @@ def return_paths(func, max_paths=400, inline=True, _depth=0,
         if args is None:
             return None
         key = (id(h.node), _depth, with_raises)
-        if key not in _HELPER_CACHE:
-            _HELPER_CACHE[key] = return_paths(h, max_paths, True, _depth + 1,
-                                              with_raises)
-        hp = _HELPER_CACHE[key]
+        if key not in _HELPER_CACHE or _HELPER_CACHE[key][0] is not h.node:
+            _HELPER_CACHE[key] = (h.node, return_paths(
+                h, max_paths, True, _depth + 1, with_raises))
+        hp = _HELPER_CACHE[key][1]
         if hp is None or len(hp) > 12:
             return None
         from .alpha import binding_order
@@ -398,9 +398,10 @@ def ensures(func):
 
     ensures (node[0] == name, True)."""
     key = id(func.node)
-    if key in _ENSURES:
-        return _ENSURES[key]
-    _ENSURES[key] = []
+    hit = _ENSURES.get(key)
+    if hit is not None and hit[0] is func.node:
+        return hit[1]
+    _ENSURES[key] = (func.node, [])
     from .model import norm
     paths = return_paths(func, inline=False)
     if not paths:
@@ -423,5 +424,5 @@ def ensures(func):
     for fs in per_path[1:]:
         common &= set(fs)
     out = [per_path[0][k] for k in sorted(common)]
-    _ENSURES[key] = out
+    _ENSURES[key] = (func.node, out)
     return out
